@@ -364,7 +364,8 @@ fn main() {
         };
         if quiet.get(run).copied().unwrap_or(false) {
             let val = if ret["has_value"].as_bool().unwrap() { Some(ret["best_value"].as_i64().unwrap()) } else { None };
-            let bad = ret["panicked"].as_bool().unwrap() || ret["watchdog"].as_bool().unwrap() || !ret["is_exact"].as_bool().unwrap() || val != m.opt().map(|o| o as i64);
+            let bad = ret["panicked"].as_bool().unwrap() || ret["watchdog"].as_bool().unwrap() || !ret["is_exact"].as_bool().unwrap() || val != m.opt().map(|o| o as i64)
+                || !m.solution_consistent(&ret);
             swept += 1;
             if !bad {
                 continue;
